@@ -7,6 +7,7 @@ package traefikoidc
 // file stops compiling, and bin/check reports the broken tie ("harness build").
 
 import (
+	"strings"
 	"container/list"
 	"fmt"
 	"math"
@@ -122,9 +123,42 @@ func vfCacheAdvance(c *Cache, d time.Duration) {
 	p.mutex.Lock()
 	defer p.mutex.Unlock()
 	for k, it := range *p.items {
-		it.ExpiresAt = it.ExpiresAt.Add(-d)
+		vfItemShift(&it, d)
 		(*p.items)[k] = it
 	}
+}
+
+// the expiry instant of an entry, found by type: a time.Time field, or an int64 field named like an expiry (Unix nanoseconds)
+func vfItemExpField(it interface{}) reflect.Value {
+	v := reflect.ValueOf(it).Elem()
+	for i := 0; i < v.NumField(); i++ {
+		if v.Field(i).Type() == reflect.TypeOf(time.Time{}) {
+			return v.Field(i)
+		}
+	}
+	for i := 0; i < v.NumField(); i++ {
+		if v.Field(i).Kind() == reflect.Int64 && strings.Contains(strings.ToLower(v.Type().Field(i).Name), "expir") {
+			return v.Field(i)
+		}
+	}
+	panic("harness: no expiry field found in the cache entry type")
+}
+
+func vfItemExpiry(it interface{}) time.Time {
+	f := vfItemExpField(it)
+	if f.Kind() == reflect.Int64 {
+		return time.Unix(0, f.Int())
+	}
+	return f.Interface().(time.Time)
+}
+
+func vfItemShift(it interface{}, d time.Duration) {
+	f := vfItemExpField(it)
+	if f.Kind() == reflect.Int64 {
+		f.SetInt(f.Int() - int64(d))
+		return
+	}
+	f.Set(reflect.ValueOf(f.Interface().(time.Time).Add(-d)))
 }
 
 func vfRoundMin(d time.Duration) int64 {
@@ -142,7 +176,7 @@ func vfCacheSnapshot(c *Cache, valOf func(interface{}) int64) vfCacheView {
 		v.Order = append(v.Order, k)
 	}
 	for k, it := range *p.items {
-		v.Items = append(v.Items, vfCacheItemView{Key: k, Val: valOf(it.Value), RemMin: vfRoundMin(it.ExpiresAt.Sub(now))})
+		v.Items = append(v.Items, vfCacheItemView{Key: k, Val: valOf(it.Value), RemMin: vfRoundMin(vfItemExpiry(&it).Sub(now))})
 	}
 	sort.Slice(v.Items, func(i, j int) bool { return v.Items[i].Key < v.Items[j].Key })
 	for k := range *p.elems {
